@@ -142,10 +142,47 @@ func shuffleObj(o jobj, c *chooser, on bool) jobj {
 type npmNode struct {
 	rec      int
 	key      string // install name (alias or package name)
+	dir      string // non-empty: the package lives in this project directory (workspace member, file: dependency)
+	link     bool   // with dir: node_modules/<key> is a link to dir
 	children []*npmNode
 }
 
-func npmPlan(recs []Record, order []int) (roots []*npmNode, kept []int) {
+// NpmNameFromFolder is the name npm derives from a package's location when its lockfile
+// entry has no "name" (arborist's name-from-folder rule): the last path segment, preceded
+// by its parent folder when that folder starts with '@'.
+func NpmNameFromFolder(loc string) string {
+	loc = strings.TrimRight(loc, "/")
+	base, parent := loc, ""
+	if i := strings.LastIndex(loc, "/"); i >= 0 {
+		base, parent = loc[i+1:], loc[:i]
+		if j := strings.LastIndex(parent, "/"); j >= 0 {
+			parent = parent[j+1:]
+		}
+	}
+	if strings.HasPrefix(parent, "@") {
+		return parent + "/" + base
+	}
+	return base
+}
+
+// npmDirOK: a project directory key is a clean relative path that is not itself inside a
+// node_modules folder.
+func npmDirOK(d string) bool {
+	if d == "" || strings.HasPrefix(d, "/") || strings.HasSuffix(d, "/") || strings.Contains(d, "//") {
+		return false
+	}
+	for _, seg := range strings.Split(d, "/") {
+		if seg == "node_modules" || seg == "." || seg == "" {
+			return false
+		}
+	}
+	return true
+}
+
+// useDirs is false for lockfileVersion 1, which has no "packages" object: a record with a dir
+// attribute is then an ordinary installed dependency.
+func npmPlan(recs []Record, order []int, useDirs bool) (roots []*npmNode, kept []int) {
+	isDir := func(r Record) bool { return useDirs && npmDirOK(r.A("dir")) }
 	nodes := make(map[int]*npmNode)
 	pending := append([]int(nil), order...)
 	used := map[string]bool{} // "parentIndex/key"
@@ -160,7 +197,7 @@ func npmPlan(recs []Record, order []int) (roots []*npmNode, kept []int) {
 				key = r.Name
 			}
 			parent := -1
-			if ps := r.A("parent"); ps != "" {
+			if ps := r.A("parent"); ps != "" && !isDir(r) {
 				if p, err := strconv.Atoi(ps); err == nil && p >= 0 && p < len(recs) && p != i {
 					parent = p
 				}
@@ -196,6 +233,25 @@ func npmPlan(recs []Record, order []int) (roots []*npmNode, kept []int) {
 					progress = true
 					continue
 				}
+			}
+			if d := r.A("dir"); isDir(r) {
+				// keyed by its directory; the node_modules link, when asked for, needs a free
+				// install name at the top level
+				if used["dir:"+d] {
+					progress = true
+					continue
+				}
+				used["dir:"+d] = true
+				n := &npmNode{rec: i, key: key, dir: d}
+				if r.A("link") != "" && !used["-1/"+key] {
+					used["-1/"+key] = true
+					n.link = true
+				}
+				nodes[i] = n
+				roots = append(roots, n)
+				kept = append(kept, i)
+				progress = true
+				continue
 			}
 			uk := "-1/" + key
 			if used[uk] {
@@ -249,12 +305,11 @@ func init() {
 		caps: Caps{CRLF: true, ShuffleKeys: true, ShuffleSections: true, Indents: 4, Variants: []string{"", "v1", "v3"}, JSON: true},
 		path: func(l Layout) string { return "package-lock.json" },
 		special: func(r Record) bool {
-			return r.A("alias") != "" || r.A("parent") != "" || r.A("dev") != "" || r.A("optional") != ""
+			return r.A("alias") != "" || r.A("parent") != "" || r.A("dev") != "" || r.A("optional") != "" || r.A("dir") != ""
 		},
 	}
 	f.render = func(recs []Record, l Layout) []byte {
 		c := &chooser{b: l.Choices}
-		roots, _ := npmPlan(recs, arrange(f, recs, l))
 		ver := 2
 		switch l.Variant {
 		case "v1":
@@ -262,6 +317,7 @@ func init() {
 		case "v3":
 			ver = 3
 		}
+		roots, _ := npmPlan(recs, arrange(f, recs, l), ver >= 2)
 		// v1 style nested "dependencies"
 		var depTree func(ns []*npmNode) jobj
 		depTree = func(ns []*npmNode) jobj {
@@ -273,8 +329,12 @@ func init() {
 				if r.A("alias") != "" {
 					v = "npm:" + r.Name + "@" + r.Version
 				}
+				if n.dir != "" {
+					// the legacy section of a v2 file describes a local package by its file: spec only
+					v = "file:" + n.dir
+				}
 				e = append(e, jkv{"version", v})
-				if l.Extra >= 1 {
+				if l.Extra >= 1 && n.dir == "" {
 					e = append(e, jkv{"resolved", npmTarball(r.Name, r.Version)}, jkv{"integrity", "sha512-" + fakeHash(r.Name+r.Version, 40) + "=="})
 				}
 				if r.A("dev") != "" {
@@ -311,13 +371,24 @@ func init() {
 			for _, n := range ns {
 				r := recs[n.rec]
 				p := prefix + "node_modules/" + n.key
+				if n.dir != "" {
+					p = n.dir
+				}
 				var e jobj
-				if r.A("alias") != "" {
+				// npm writes "name" when it differs from the name derived from the location
+				if NpmNameFromFolder(p) != r.Name || (n.dir != "" && r.A("explicit_name") != "") {
 					e = append(e, jkv{"name", r.Name})
 				}
 				e = append(e, jkv{"version", r.Version})
-				if l.Extra >= 1 {
+				if l.Extra >= 1 && n.dir == "" {
 					e = append(e, jkv{"resolved", npmTarball(r.Name, r.Version)}, jkv{"integrity", "sha512-" + fakeHash(r.Name+r.Version, 40) + "=="})
+				}
+				linkFirst := false
+				if n.link {
+					linkFirst = c.yes()
+					if linkFirst {
+						pk = append(pk, jkv{"node_modules/" + n.key, jobj{{"resolved", n.dir}, {"link", true}}})
+					}
 				}
 				if r.A("dev") != "" && r.A("optional") != "" {
 					e = append(e, jkv{"devOptional", true})
@@ -344,6 +415,9 @@ func init() {
 						jkv{"peerDependenciesMeta", jobj{{"name", jobj{{"optional", true}}}}}, jkv{"hasInstallScript", true}, jkv{"cpu", strs("x64", "arm64")})
 				}
 				pk = append(pk, jkv{p, shuffleObj(e, c, l.ShuffleKeys)})
+				if n.link && !linkFirst {
+					pk = append(pk, jkv{"node_modules/" + n.key, jobj{{"resolved", n.dir}, {"link", true}}})
+				}
 				walk(p+"/", n.children)
 			}
 		}
@@ -359,17 +433,29 @@ func init() {
 		}
 		if ver >= 2 {
 			rootDeps := jobj{}
+			var workspaces []any
 			for _, n := range roots {
 				r := recs[n.rec]
 				spec := "^" + r.Version
 				if r.A("alias") != "" {
 					spec = "npm:" + r.Name + "@^" + r.Version
 				}
+				if n.dir != "" {
+					spec = "file:" + n.dir
+					if n.link && c.yes() {
+						// a workspace member is not necessarily a dependency of the root project
+						workspaces = append(workspaces, n.dir)
+						continue
+					}
+				}
 				rootDeps = append(rootDeps, jkv{n.key, spec})
 			}
 			root := jobj{}
 			if l.Extra >= 1 {
 				root = append(root, jkv{"name", "verif-app"}, jkv{"version", "1.0.0"})
+			}
+			if len(workspaces) > 0 {
+				root = append(root, jkv{"workspaces", workspaces})
 			}
 			if l.Extra >= 1 || len(rootDeps) > 0 {
 				root = append(root, jkv{"dependencies", rootDeps})
@@ -391,7 +477,7 @@ func init() {
 		return encodeJSON(top, l)
 	}
 	f.expected = func(recs []Record, l Layout) []Pair {
-		_, kept := npmPlan(recs, arrange(f, recs, l))
+		_, kept := npmPlan(recs, arrange(f, recs, l), l.Variant != "v1")
 		seen := map[Pair]bool{}
 		var out []Pair
 		for _, i := range kept {
